@@ -18,6 +18,11 @@ EXCS = ['ValueError', 'KeyError', 'TypeError', 'IndexError', 'RuntimeError', 'Ze
         'LookupError', 'ArithmeticError', 'Exception', 'NotImplementedError', 'OSError', 'AssertionError', 'UnboundLocalError', 'NameError']
 
 
+FLOAT_LITS = ['10.0', '20.0', '120.0', '250.0', '0.5', '1.0', '100.0', '1000.0', '1e3', '1e16', '1.5e-07', '0.0', '2.5', '1e100', '123456789.0', '1000000.0', '1200.0', '0.1',
+              '3.14159', '1e-05', '0.001', '5.0', '1e22', '1e23', '9007199254740993.0', '.5', '5.', '1_000.0', '0.30000000000000004', '1e308', '1e999', '4.9e-324', '12345.678']
+COMPLEX_LITS = ['1j', '10.0j', '0j', '2.5j', '1e3j', '(1+2j)', '(10.0-20.0j)', '1e999j']
+
+
 class G(object):
     def __init__(self, draw, level=(3, 12)):
         self.d = draw
@@ -314,7 +319,7 @@ class G(object):
         self.budget -= 1
         deep = self.ind >= 3 or self.budget <= 0
         w = [(10, self.s_assign), (9, self.s_print), (3, self.s_aug), (2, self.s_pass), (2, self.s_call), (2, self.s_assert), (2, self.s_raise_guarded),
-             (2, self.s_unpack), (1, self.s_del), (2, self.s_ann), (1, self.s_global_touch)]
+             (2, self.s_unpack), (1, self.s_del), (2, self.s_ann), (1, self.s_global_touch), (3, self.s_float)]
         if not deep:
             w += [(6, self.s_def), (3, self.s_class), (4, self.s_if), (3, self.s_for), (2, self.s_while), (4, self.s_try), (2, self.s_with), (2, self.s_import)]
             if self.level >= (3, 10):
@@ -329,6 +334,26 @@ class G(object):
             if r < x:
                 return f()
             r -= x
+
+    def s_float(self):
+        # float (and complex) literals: their printed spelling decides their type, so the value is shown with repr and used in
+        # operations whose result type depends on it
+        self.features.add('float')
+        f = self.ch(FLOAT_LITS)
+        g = self.ch(FLOAT_LITS)
+        form = self.i(0, 4)
+        if form == 0:
+            self.emit('print(repr(%s), repr(%s))' % (f, g))
+        elif form == 1:
+            self.emit('print(repr(%s // %s), repr(%s * %s))' % (self.int_lit(), f if f not in ('0.0', '0.', '0e0') else '1.0', g, self.int_expr()))
+        elif form == 2:
+            v = self.fresh(['ratio_value', 'scale_float', 'E'])
+            self.emit('%s = %s' % (v, f))
+            self.emit('print(repr(%s), type(%s).__name__, repr(%s + %s))' % (v, v, v, g))
+        elif form == 3:
+            self.emit('print(repr([%s, %s, %s]))' % (f, g, self.ch(FLOAT_LITS)))
+        else:
+            self.emit('print(repr(%s), repr(-%s), repr((%s).is_integer()))' % (self.ch(COMPLEX_LITS), f, g))
 
     def s_pass(self):
         self.emit('pass')
